@@ -1445,7 +1445,7 @@ fn main() {
     long_failure_run(&mon);
     directed_selector_cases(&mon, &Arc::new(MapTrust { m: parking_lot::RwLock::new(HashMap::new()), default: parking_lot::RwLock::new(0.0) }));
     flush_tally(&mon);
-    let rounds = mon.by_tier(800u64, 12_000);
+    let rounds = mon.by_tier(2400u64, 12_000);
     let sel_per_round = 160u64;
     vkit::run_shards(mon.shards(), mon.seed, |_i, mut rng| {
         let rt = checks::rt(true); // paused clock: EigenTrustEngine::compute_global_trust sits in a 2 s tokio timeout
